@@ -34,6 +34,16 @@ CLAIMED = {
             "that reaches Run.EvaluateTemplate* is tagged engine:evaluated. Does not relate inspection to actual executions.",
             "table agreement between sibling implementations (saves vs declares) via SSA provenance, struct-tag audit, control-dependence check",
             "DESIGN.md §4 C20"),
+    "C04": ("Structural necessary conditions of totality of expression evaluation, decided over the SSA form of the six evaluation "
+            "packages: every explicit panic is listed as unreachable with its guard (or has no caller); every call of a partial "
+            "library function (decimal Div/Mod/QuoRem, Pow/Round/Shift/StringFixed/New with computed exponents, Must*/Require*, "
+            "strings.Repeat) has a constant-derived or guarded operand; the arity wrappers enforce len(args) >= min on every "
+            "path before calling the wrapped function and every constant index/slice of args in the 120 registered functions "
+            "and tests is below the registered minimum or guarded; unchecked type assertions are guarded by a type test, IsXError, "
+            "or same-type call sites; constant-offset string slicing is guarded. Does not decide termination inside libraries "
+            "for guarded operands, numeric results, or computed (non-constant) index expressions.",
+            "guard-dominance (control-dependence) check on partial-call operands, arity-table vs index agreement, path typestate on the arity wrapper",
+            "DESIGN.md §4 C04"),
 }
 
 NOT_APPLICABLE = {}
